@@ -25,6 +25,15 @@ META = {
 }
 
 IMPORTS = ["UPV.Model.Htn", "UPV.Corr.Corr_C34"]
+
+
+def coq_failing_2(ctx, cases, ok_fn, shard, **kw):
+    """ctx.coq_failing, but at most two coqc processes at a time (the machine is shared)."""
+    res = []
+    for base in range(0, len(cases), 2 * shard):
+        res += [base + i for i in ctx.coq_failing(cases[base:base + 2 * shard], ok_fn, shard=shard, **kw)]
+    return res
+
 PREAMBLE = "Local Open Scope N_scope.\n"
 
 # ---------------------------------------------------------------------------------------------------------------
@@ -376,7 +385,7 @@ def run(ctx):
                     descs.append(("prec", pick(), f, 1) if rng.random() < 0.5 else ("prec", f, pick(), 1))
         record(rng.randrange(3), ids, descs, foreign)
 
-    bad = ctx.coq_failing(cases, "ok", imports=IMPORTS, preamble=PREAMBLE, shard=2500)
+    bad = coq_failing_2(ctx, cases, "ok", 2600, imports=IMPORTS, preamble=PREAMBLE)
     shown = 0
     for i in bad:
         c = raw[i]
